@@ -1,3 +1,7 @@
+import Props.GenAppend
 import Props.GenMisc
 open Model.SlicesGen
 #print axioms maxClockTimeForEntries_eq
+#print axioms appendPlan_eq
+#print axioms getEveryPow2_eq
+#print axioms everyPow2_fuel
